@@ -71,6 +71,10 @@ run_directed = directed.run
 
 
 def cases(tier, rng):
+    for c in directed.first_calls_at_the_same_moment_cases():
+        yield "directed-first-calls-at-the-same-moment", c
+    for c in directed.base_call_while_override_runs_cases():
+        yield "directed-base-call-while-override-runs", c
     thorough = tier == "thorough"
     for c in directed.invariants_while_another_thread_reports_cases():
         yield "directed-invariants-while-another-thread-reports", c
